@@ -168,6 +168,19 @@ def classify_line(raw: bytes, uploads_enabled: bool = False):
         # urllib strips TAB/CR/LF and leading controls silently; the property's grammar does not
         # say what must happen, so these are grey (counted), whatever the rest looks like.
         if uploads_enabled or not text.startswith("titan://"):
+            # ... unless the line is refusable for a reason that does not depend on those characters (printable
+            # non-ASCII text only; lines with controls or spaces stay grey altogether)
+            if not re.search(r"[\x00-\x20\x7f]", text):
+                m2 = re.match(r"^([A-Za-z][A-Za-z0-9+.-]*):(//([^/?#]*))?", text)
+                if m2 and m2.group(1).lower() not in ("gemini", "titan"):
+                    return "reject", "other-scheme", {59}
+                if m2 and m2.group(1).lower() == "gemini":
+                    if m2.group(2) is None or m2.group(3) == "":
+                        return "reject", "no-host", {59}
+                    if "@" in m2.group(3) and m2.group(3).rpartition("@")[0] != "":
+                        return "reject", "userinfo", {59}
+                    if "#" in text and text.partition("#")[2] != "":
+                        return "reject", "fragment", {59}
             return "undecided", "chars-outside-uri-alphabet", None
     if text.startswith("titan://"):
         if not uploads_enabled:
